@@ -568,7 +568,41 @@ func writerZoo(k *K, ws []func(io.Writer) error, want []byte) {
 		}
 		k.Count("writer_kinds_compared", 1)
 	}
+	// A destination that, while it is being written to, itself writes a record of the same kind elsewhere (a tee that
+	// keeps an index, a writer that logs what passes through): Write calls nest. Whatever Write holds while it calls
+	// its destination — a lock, a shared scratch buffer — is needed again by the nested call.
+	{
+		var outer, inner bytes.Buffer
+		depth, nested := 0, 0
+		re := writerFunc(func(p []byte) (int, error) {
+			if depth == 0 && nested < 3 {
+				depth++
+				nested++
+				err := ws[0](&inner)
+				depth--
+				if err != nil {
+					return 0, err
+				}
+			}
+			return outer.Write(p)
+		})
+		for i, w := range ws {
+			if err := w(re); err != nil {
+				k.Failf("write-error", "Write of record %d to a destination that itself writes a record while it is written to returned %v", i, err)
+				return
+			}
+		}
+		if !bytes.Equal(outer.Bytes(), want) || (nested > 0 && inner.Len() == 0 && len(want) > 0) {
+			k.Failf("write-destination", "%d record(s) written to a destination that itself writes a record (nested Write calls) give %d bytes, MarshalText gives %d; the nested calls wrote %d bytes", len(ws), outer.Len(), len(want), inner.Len())
+			return
+		}
+		k.Count("nested_write_calls", int64(nested))
+	}
 }
+
+type writerFunc func(p []byte) (int, error)
+
+func (f writerFunc) Write(p []byte) (int, error) { return f(p) }
 
 // Failing destinations with more methods than Write: whichever method the
 // record's Write uses, once the destination has returned an error from any of
